@@ -413,6 +413,9 @@ def _subs(tier, prop):
         mons = ['data']
         S.append(mk_sub('F1-PB-n2-trace', dict(serial('PB', 2, caps={2: 2}), trace=True), mons, zero=['cs']))
         S.append(mk_sub('F1-B-n3', serial('B', 3, caps={1: 2}), mons, zero=['c0']))
+        # the same system is simulated twice with the trace on: the export after the second run lists the events of both
+        S.append(mk_sub('F1-P-n2-two-traced-runs', dict(serial('P', 2), trace=True, horizons=['h0', 'h1']), mons, zero=['cs', 'c0'],
+                        ranges={'h0': (0, 3 * L.T), 'h1': (0, 3 * L.T)}))
         S.append(mk_sub('F5-resources', resources2(2), mons, zero=['cs', 'c0']))
         S.append(mk_sub('F6-fail-restore-trace', dict(_faults_basic(2, [
             {'k': 'fail', 'dev': 'p1', 't': 't0'}, {'k': 'restore', 'dev': 'p1', 't': 't1'}]), trace=True), mons, zero=['cs'], pre=['t0 <= t1']))
